@@ -114,6 +114,8 @@ pub async fn run_sender_with_config(
     }
 
     let (packet_tx, mut packet_rx) = create_uplink_channel();
+    #[cfg(feature = "verif-hooks")]
+    verif_hooks::note_uplink_channel(&packet_tx);
     let mut reader_handles: HashMap<ConnectionId, ReaderHandle> = HashMap::new();
     sync_readers(&connections, &conn_io, &mut reader_handles, &packet_tx);
 
@@ -123,6 +125,8 @@ pub async fn run_sender_with_config(
 
     // Wrap local_listener in Arc for sharing
     let local_listener = Arc::new(local_listener);
+    #[cfg(feature = "verif-hooks")]
+    let local_listener = Arc::new(crate::net::verif_hooks::ListenerShim::new(local_listener));
 
     // Spawn instant forwarding task
     {
